@@ -81,7 +81,13 @@ def gen_zone(rng, max_records=40):
             ty = rng.choice([T_A, T_A, T_AAAA, T_AAAA, T_CNAME, T_TXT, T_NS, T_MX])
         owner = flip_case(rng, rel + apex, 0.25)
         if rng.random() < 0.05:      # out of the zone
-            owner = rng.choice([owner[1:] if owner else ["78"], rel + ["78"], owner[:-1] + ["64"] if owner else ["64"]])
+            cands = [owner[1:] if owner else ["78"], rel + ["78"], owner[:-1] + ["64"] if owner else ["64"]]
+            if apex:
+                # adversarial sibling: same label count as the apex and a WIRE form that ends in the apex's wire form,
+                # but the match does not start on a label boundary (first label = 'x' + <len><first apex label>)
+                cands.append(["78" + "%02x" % (len(apex[0]) // 2) + apex[0]] + apex[1:])
+                cands.append(rel + ["78" + "%02x" % (len(apex[0]) // 2) + apex[0]] + apex[1:])
+            owner = rng.choice(cands)
         if ty == T_A:
             # class CH: <name><u16>; lower-case names only, where Rdata::equals is octet equality
             rd = (wire(["63", "68"]) + rng.choice(["0001", "0002"])) if cls == 3 else rng.choice(A_POOL)
@@ -110,7 +116,8 @@ def all_rel_names(maxdepth=3):
 def outside_names(rng, apex):
     out = [[], ["78"], ["61", "78"]]
     if apex:
-        out += [apex[1:], apex[:-1] + ["64"], ["61"] + apex[:-1] + ["64"], apex[:-1], ["61", "62"] + apex[1:]]
+        out += [apex[1:], apex[:-1] + ["64"], ["61"] + apex[:-1] + ["64"], apex[:-1], ["61", "62"] + apex[1:],
+                ["78" + "%02x" % (len(apex[0]) // 2) + apex[0]] + apex[1:]]
     return out
 
 
